@@ -7,8 +7,11 @@
   `Message(message_type=TIME_SIGNATURE, channel=default_channel, …)` (bar.py:50-53) ends up with, i.e.
   `chanOf default_channel` (message.py:36-37: a `None` channel becomes 0).
 
-  Since the repair of D37 (`Bar.__init__` stores `default_channel`, bar.py:21; `Bar.copy` hands it on,
-  bar.py:59-61) `Bar.copy` of a bar built with `default_channel = c` is `Bar.copyCh … (chanOf c)`.
+  `Bar.copy` (bar.py:57-66, second repair of D37): the copy is constructed on the channel of the bar's own leading
+  TIME_SIGNATURE message as it is NOW (`sigChan` of the relative view; 0 if the view holds none) — `Bar.copyOwn`, i.e.
+  `Bar.copyCh … (chanOf (sigChan b.seq))`.  (The first repair, source commit f9ef398, stored the constructor's
+  `default_channel` and handed THAT on — `Bar.copyCh … (chanOf c)` for the construction-time `c`; it goes stale when the
+  bar's messages are moved to another channel afterwards: `C10Ch.stored_channel_copy_differs`.)
 
   Lemmas/BarChL.lean: `mkBarCh_zero` — the instance 0 is `mkBar`, definitionally, so every theorem about `mkBar`
   is a theorem about `mkBarCh … 0`; `mkBarCh_eq_map` — for every channel the result is `mkBar`'s with the channel
@@ -23,20 +26,32 @@ def chanOf (c : Int) : Int := if c = pyNone then 0 else c
 /-- `Bar(sequence, numerator, denominator, key, default_channel)` with `ch = chanOf default_channel`
     (bar.py:14-55); `mkBar` is the instance `ch = 0` -/
 def mkBarCh (ppqn : Int) (rel : List Msg) (n d key ch : Int) : Except Err Bar := do
-  let r := normalise rel                                        -- bar.py:24
-  let cap := barCapacity ppqn n d                               -- bar.py:27
-  let dur := totalWait r                                        -- bar.py:28
-  if dur > cap then throw .barError                             -- bar.py:31-32
-  let r := if dur < cap then pad cap r else r                   -- bar.py:35-36
-  let tss := r.filter (·.ty == .timeSignature)                  -- bar.py:39-40
-  if tss.length > 1 then throw .barError                        -- bar.py:42-43
-  if !(tss.all (fun m => m.num == n && m.den == d)) then throw .barError   -- bar.py:44-46
-  let r := r.filter (·.ty != .timeSignature)                    -- bar.py:49-50
-  .ok { seq := Msg.mkTimeSig ch n d pyNone :: r, num := n, den := d, key := key }   -- bar.py:51-54
+  let r := normalise rel                                        -- bar.py:23
+  let cap := barCapacity ppqn n d                               -- bar.py:26
+  let dur := totalWait r                                        -- bar.py:27
+  if dur > cap then throw .barError                             -- bar.py:30-31
+  let r := if dur < cap then pad cap r else r                   -- bar.py:34-35
+  let tss := r.filter (·.ty == .timeSignature)                  -- bar.py:38-39
+  if tss.length > 1 then throw .barError                        -- bar.py:41-42
+  if !(tss.all (fun m => m.num == n && m.den == d)) then throw .barError   -- bar.py:43-45
+  let r := r.filter (·.ty != .timeSignature)                    -- bar.py:48-49
+  .ok { seq := Msg.mkTimeSig ch n d pyNone :: r, num := n, den := d, key := key }   -- bar.py:50-53
 
-/-- `Bar.copy()` of a bar that remembers `default_channel` (bar.py:58-62, after the repair of D37);
-    `ch = chanOf self.default_channel` -/
+/-- a copy of the bar constructed on channel `ch`: `Bar(self.sequence.copy(), numerator, denominator, key, <channel>)`
+    (bar.py:63-65) with `ch = chanOf <channel>` -/
 def Bar.copyCh (ppqn : Int) (b : Bar) (ch : Int) : Except Err Bar := mkBarCh ppqn b.seq b.num b.den b.key ch
+
+/-- bar.py:59-61: `next((msg for msg in self.sequence.rel._messages if msg.message_type == TIME_SIGNATURE), None)`, then
+    `time_signature.channel if time_signature is not None else 0` — the channel of the first time-signature message of the
+    relative view, 0 if there is none -/
+def sigChan (rel : List Msg) : Int :=
+  match (rel.filter (·.ty == .timeSignature)).head? with
+  | some m => m.ch
+  | none => 0
+
+/-- `Bar.copy()` (bar.py:57-66, second repair of D37): a new bar from the bar's relative view, the leading time-signature
+    event on the channel of the bar's own (current) time-signature message -/
+def Bar.copyOwn (ppqn : Int) (b : Bar) : Except Err Bar := b.copyCh ppqn (chanOf (sigChan b.seq))
 
 /-- replace the channel of the first message -/
 def setHeadCh (ch : Int) : List Msg → List Msg
